@@ -42,6 +42,7 @@ ASSUMPTIONS = [
 ]
 
 SIG = "C09|{}|{}"
+REPLAY_MATCH = "entry"  # the failure kind is an attribution; a replay must reproduce a violation at the same entry point
 K_GLOB = "depends-on-global-rng-state-or-uninitialised-memory"
 K_CLOCK = "depends-on-wall-clock"
 K_HASH = "depends-on-hash-seed"
